@@ -40,10 +40,10 @@ REG_HEADER = ("From Coq Require Import ZArith List String.\n"
               "Open Scope string_scope.\nOpen Scope Z_scope.\n")
 RULE = ("history = 1-4 stations (EVSE / DeadbandEVSE / FiniteRatesEVSE), back-to-back sessions per station with "
         "Battery or Linear2StageBattery (continuous/stepwise, with and without noise), ties of plugins/unplugs at one "
-        "timestamp, RecomputeEvents before/between/after the sessions, max_recompute in {None,1,2,3}, "
+        "timestamp, RecomputeEvents before/between/after the sessions, untyped base Events, max_recompute in {None,1,2,3}, "
         "store_schedule_history on/off, scripted / UncontrolledCharging / sorted schedulers, shuffled event insertion "
-        "order; one case per (history, scheduler call k at which the scheduler raises); a small share of histories "
-        "belongs to the two known-finding classes (zero-stay session, untyped base Event); "
+        "order; one case per (history, scheduler call k at which the scheduler raises); the corpus witnesses first; a "
+        "small share of histories belongs to the known-finding class (zero-stay session); "
         "non-trivial = distinct (history, k)")
 ASSUMPTIONS = [
     "the scheduler's output is a function of the simulator state it observes (scheduler-internal state is not "
@@ -60,7 +60,6 @@ warnings.filterwarnings("ignore")
 sys.path.insert(0, os.path.join(ROOT, "tools"))
 
 KNOWN_ZERO_STAY = "known:zero-stay-session"
-KNOWN_UNTYPED = "known:untyped-event-drains-queue"
 
 
 class SchedulerCrash(Exception):
@@ -125,10 +124,14 @@ def gen_history(rng, special=None, big=False):
         s["departure"] = s["arrival"] - rng.choice([0, 0, 1]) if s["arrival"] > 0 else s["arrival"]
         s["est_departure"] = None
     if special == "untyped":
-        mr = rng.choice([1, 2])
-        sched = ["scripted"]
-        extra = [e for e in extra if e[1] <= last]
-        extra.append(["Event", last + rng.randint(1, 3)])
+        # base-class Event objects (event_type ""): processed without any effect
+        if rng.random() < 0.6:
+            # the class of the fixed finding: the untyped event drains the queue, max_recompute drives the calls
+            mr = rng.choice([1, 2])
+            extra = [e for e in extra if e[1] <= last]
+            extra.append(["Event", last + rng.randint(1, 3)])
+        for _ in range(rng.choice([0, 1, 2])):
+            extra.append(["Event", rng.randint(0, last + 2)])
     order = list(range(len(sessions) + len(extra)))
     rng.shuffle(order)
     h = dict(stations=stations, sessions=sessions, extra=extra, mr=mr, sched=sched, order=order,
@@ -596,8 +599,6 @@ def cases_of_history(h):
         sig = [hs, rec["k"]]
         if special == "zero_stay":
             sig = KNOWN_ZERO_STAY
-        elif special == "untyped":
-            sig = KNOWN_UNTYPED
         inp = dict(history=h, k=rec["k"])
         kind = "%s/%s/%s" % (h["sched"][0], "mr%s" % effective_mr(h), special or "plain")
         complete = all(x in rec for x in ("resumed", "loaded", "resumed_loaded"))
@@ -628,10 +629,31 @@ def cases_of_history(h):
 _REG_CASES = []
 
 
+def corpus_histories():
+    """witnesses of fixed findings (corpus/C09/*.json): (name, history); every crash point of each is run first"""
+    import glob
+    out = []
+    for path in sorted(glob.glob(os.path.join(ROOT, "corpus", "C09", "*.json"))):
+        with open(path) as f:
+            out.append((os.path.basename(path)[:-5], json.load(f)["case"]["history"]))
+    return out
+
+
 def gen_cases(rng, n, tier):
     global _REG_CASES
     _REG_CASES = []
     cases = []
+    for name, h in corpus_histories():
+        res = cases_of_history(h)
+        if res is None:
+            cases.append(dict(input=dict(history=h, k=0), impl=dict(problem="corpus %s: the reference run raises" % name),
+                              coq="bad_case", ambiguous=False, kind="corpus", sig=["corpus", name], nontrivial=True))
+            continue
+        for c in res[0]:
+            c["kind"] = "corpus/" + name
+            c["sig"] = ["corpus", name, c["input"]["k"]]
+        cases.extend(res[0])
+        _REG_CASES.extend(res[1])
     made = 0
     attempts = 0
     while made < n and attempts < 20 * n:
